@@ -57,8 +57,17 @@ def register(op):
     def macro(spec):
         cs, k = spec
         members = [cplx(c) for c in cs]
-        if k % 2:                       # the subclass registry gets the members in the opposite order
+        if k % 2:                       # the subclass registry gets the members in the opposite order ...
             members.reverse()
+            if len({id(m) for m in members}) > 1:
+                # ... and a user-chosen name (that of its canonically largest member): name and representative are not part
+                # of the canonical form
+                try:
+                    return MAC[k](members, name=max(members, key=lambda c: c.canonical_form).name)
+                except bc.SingletonError as e:
+                    if e.existing is not None:
+                        return e.existing
+                    raise
         return MAC[k](members)
 
     def mkey(m):
